@@ -357,7 +357,12 @@ fn gen_source(rng: &mut Rng, big: bool) -> (String, &'static str, bool) {
     o.crlf = rng.chance(1, 8);
     o.unicode = rng.chance(1, 4);
     let (p, _) = jsgen::gen_program(rng, o);
-    match rng.below(36) {
+    match rng.below(38) {
+        36 | 37 => {
+            // dozens to hundreds of literals, named and unnamed (the literal report: sorting, buffers)
+            let n = *rng.pick(&[21usize, 30, 60, 120, 300]);
+            (jsgen::gen_many_literals(rng, n), "many-literals", true)
+        }
         33 | 34 => (jsgen::gen_prologue(rng), "directive-prologue", true),
         35 => (jsgen::gen_long_line_error(rng), "long-line-syntax-error", false),
         31 | 32 => {
@@ -441,13 +446,15 @@ fn gen_source(rng: &mut Rng, big: bool) -> (String, &'static str, bool) {
         18 => (String::new(), "empty", true),
         19 => {
             // the reserved prefix of the tracer-like configuration in various placements
-            let clash = match rng.below(7) {
+            let clash = match rng.below(10) {
                 0 => "function clash(a, b) {\n  let __datadog_test_7 = a + b;\n  return __datadog_test_7;\n}\n",
                 1 => "function clash(a, b) {\n  const g = (x) => __datadog_test_0 + x;\n  return g(a) + b;\n}\n",
                 2 => "function clash(a, b) {\n  const g = (__datadog_test_1) => __datadog_test_1 + a;\n  return g(a) + b;\n}\n",
                 3 => "function clash(a, b) {\n  return [a].map((x) => (y) => __datadog_test_0 + x + y)[0](b) + a;\n}\n",
                 4 => "const top = (a, b) => { return ((x) => __datadog_test_2 + x)(a) + b; };\n",
                 5 => "function clash(a, b) {\n  try { return a + b; } catch (__datadog_test_0) { return ((e) => e + __datadog_test_0)(b); }\n}\n",
+                7 => "function clash(a, b) {\n  let __datadog_test_ = a + b;\n  return __datadog_test_ + a;\n}\n",
+                8 => "function clash(a, b) {\n  let __datadog_test = a + b, __datadog_test_x = b, __datadog_ = a, __datadog_test_00 = b + a;\n  return __datadog_test + a;\n}\n",
                 _ => "function clash(a, b) {\n  class __datadog_test_3 { m() { return a + b; } }\n  return new __datadog_test_3().m() + a;\n}\n",
             };
             (format!("{}\n{}", p, clash), "reserved-prefix", true)
